@@ -201,7 +201,7 @@ EXPORT errno_t _asctime_s_chk(char *dest, rsize_t dmax, const struct tm *tm,
     len = strlen(buf);
 
     if (likely(len < dmax)) {
-        strcpy_s(dest, dmax, buf);
+        _strcpy_s_chk(dest, dmax, buf, destbos);
     } else {
     esnospc:
         invoke_safe_str_constraint_handler("asctime_s: dmax is too small", dest,
